@@ -456,16 +456,19 @@ RunChain(chain, args, i, input, log) ==
       lg == Append(log, [name |-> st.name, args |-> as, stdin |-> input])
   IN IF i = Len(chain) THEN <<lg, o, ProbeCode(as)>>
      ELSE RunChain(chain, SubSeq(args, k + 1, Len(args)), i + 1, o, lg)
-ApplyAppCall ==
+RECURSIVE JoinLines(_)
+JoinLines(ls) == IF ls = <<>> THEN "" ELSE ls[1] \o "\n" \o JoinLines(Tail(ls))
+ApplyAppCall ==                \* the first command of a chain inherits (and drains) the script's standard input
   /\ Top.t = "apply" /\ Top.n.k = "app"
   /\ LET c == Len(Operands(Top.n))
-         r == RunChain(Top.n.chain, TopVals(c), 1, "", alog)
+         r == RunChain(Top.n.chain, TopVals(c), 1, JoinLines(stdin), alog)
          used == Len(ctl) >= 2 /\ ctl[Len(ctl) - 1].t # "exprdrop"
      IN /\ alog' = r[1]
         /\ IF used                 \* captured: stdout minus its final newline, "", status; nothing printed
            THEN vals' = DropVals(c) \o <<StrV(StripNl(r[2])), StrV(""), IntV(FromNat(r[3]))>> /\ UNCHANGED out
            ELSE vals' = DropVals(c) /\ out' = out \o r[2]
-  /\ ctl' = Pop /\ UNCHANGED <<status, fs, stdin>> /\ UNCH_STORE
+  /\ stdin' = <<>>
+  /\ ctl' = Pop /\ UNCHANGED <<status, fs>> /\ UNCH_STORE
 
 (*************************** the machine ***********************************)
 Step == \/ BlockNext \/ StmtDefineAssign \/ Store \/ StmtDesugar \/ StmtSetIdx \/ SetIdxApply
